@@ -1051,7 +1051,7 @@ def vec_as_slice(I, a, n):
     return SliceRef(v.items, 0, len(v.items))
 
 
-@model(r"^<std::vec::Vec as std::ops::Index>::index$|^<std::vec::Vec as std::ops::IndexMut>::index_mut$|^<\[.*\] as std::ops::Index>::index$")
+@model(r"^<std::vec::Vec as std::ops::Index>::index$|^<std::vec::Vec as std::ops::IndexMut>::index_mut$|^<\[.*\] as std::ops::Index>::index$|^<\[.*\] as std::ops::IndexMut>::index_mut$")
 def vec_index(I, a, n):
     v = deref(a[0])
     idx = a[1]
